@@ -880,11 +880,25 @@ Definition set_sub_params (s : chain) (w d : bool) : chain :=
      c_settledix := c_settledix s; c_grants := c_grants s; c_mparams := c_mparams s; c_minter := c_minter s;
      c_supply := c_supply s; c_props := c_props s; c_propcnt := c_propcnt s; c_subs := c_subs s;
      c_subnext := c_subnext s; c_sub_wager := w; c_sub_deposit := d; c_halted := c_halted s |}.
-Inductive gop := GUser (o : op) | GSubParams (w d : bool).
+(* x/bet/keeper/msg_server_params.go UpdateParams changing the wager fee (validateConstraints: 0 <= fee < minimum amount) *)
+Definition set_bet_fee (s : chain) (fee : Z) : chain :=
+  let P := c_prm s in
+  {| c_bank := c_bank s; c_now := c_now s; c_height := c_height s;
+     c_prm := {| pr_bet_batch := pr_bet_batch P; pr_bet_min := pr_bet_min P; pr_bet_fee := fee; pr_ob_maxpart := pr_ob_maxpart P;
+                 pr_ob_batch := pr_ob_batch P; pr_ob_thr := pr_ob_thr P; pr_h_mindep := pr_h_mindep P; pr_h_fee := pr_h_fee P;
+                 pr_h_maxw := pr_h_maxw P |};
+     c_vault := c_vault s;
+     c_ms := c_ms s; c_mqueue := c_mqueue s; c_bqueue := c_bqueue s; c_betcnt := c_betcnt s; c_uid2id := c_uid2id s;
+     c_settledix := c_settledix s; c_grants := c_grants s; c_mparams := c_mparams s; c_minter := c_minter s;
+     c_supply := c_supply s; c_props := c_props s; c_propcnt := c_propcnt s; c_subs := c_subs s;
+     c_subnext := c_subnext s; c_sub_wager := c_sub_wager s; c_sub_deposit := c_sub_deposit s; c_halted := c_halted s |}.
+Inductive gop := GUser (o : op) | GSubParams (w d : bool) | GBetFee (fee : Z).
 Definition gstep (s : chain) (g : gop) : chain * out :=
   match g with
   | GUser o => step s o
   | GSubParams w d => if c_halted s then (s, Panic) else (set_sub_params s w d, Ok)
+  | GBetFee fee => if c_halted s then (s, Panic)
+                   else if (fee <? 0) || (pr_bet_min (c_prm s) <=? fee) then (s, Err) else (set_bet_fee s fee, Ok)
   end.
 Definition grun (s : chain) (gs : list gop) : chain := fold_left (fun st g => fst (gstep st g)) gs s.
 
